@@ -88,6 +88,9 @@ def interop(a, b, kind, private_b: bool, params=None) -> str | None:
     return None
 
 
+_MATERIAL = {"oct": {"k"}, "RSA": {"n", "e", "d", "p", "q", "dp", "dq", "qi", "oth"}, "EC": {"crv", "x", "y", "d"}, "OKP": {"crv", "x", "d"}}
+
+
 def _scribble_nested(d: dict) -> None:
     """edit, in place, every list / object found under a dict the caller owns"""
     for v in d.values():
@@ -266,6 +269,11 @@ def check_key(res, tr, label, material: RKey, jkey, params, viol, rng, thorough)
             for k, v in (params or {}).items():
                 if given.get(k) != v:
                     viol("export:%s:extra-parameter-lost" % form, "parameter %s=%r not in the export" % (k, v), form)
+            # ... and nothing the caller did not give: the key's own members, the parameters, nothing "implied"
+            invented = sorted(set(given) - _MATERIAL[material.kty] - set(params or {}) - {"kty"})
+            if invented:
+                viol("export:%s:member-never-given" % form, "the export carries %r, which neither the key material nor the parameters contain" % (
+                    {k: given[k] for k in invented},), form)
         if form.endswith("encrypted"):
             for bad in (None, "wrong", ""):
                 res.case(label, form, "password", bad)
